@@ -20,6 +20,21 @@ structure Pool where
 /-- `TagPool.__init__` -/
 def Pool.init : Pool := ⟨[], 1⟩
 
+/-- duplicate-freeness as a Boolean (structural: evaluates inside the kernel) -/
+def nodupB : List Nat → Bool
+  | [] => true
+  | x :: xs => !xs.contains x && nodupB xs
+
+/-- **The pool invariant** — what every state of a `TagPool(max)` reachable through `get` / `release`
+    of leased tags satisfies, on a connection of any age: the released tags are distinct, each of
+    them was handed out before (`2 ≤ t ≤ next`), the high-water mark started at 1 and stays below
+    `max` (`get` refuses to move it to `max − 1 + 1`).  `Pool.init` is the youngest such state.
+    It is the hypothesis on the *starting* pool of a script (Adapter: `cfgWF`) and the pool part of
+    the invariant of the proofs (Proofs/TagPoolLemmas: `PoolInv`, `Pool.wf_iff`). -/
+def Pool.wf (max : Nat) (p : Pool) : Bool :=
+  nodupB p.free && p.free.all (fun t => decide (2 ≤ t) && decide (t ≤ p.next)) &&
+    decide (1 ≤ p.next) && decide (p.next < max)
+
 inductive GetRes where
   | tag (t : Nat) (p : Pool)     -- a tag was handed out; the pool afterwards
   | exhausted                    -- `raise Exception("No tags left in pool.")`, pool unchanged
